@@ -37,30 +37,48 @@ Definition bad_cases (cs : list fcase) : list Z :=
     end) cs.
 
 (* ---- verified curve-deviation cases (Checker/CurveDev.v, soundness in Props/C09.v) ----
-   report codes: 0 = undecided range (fuel exhausted; never an alarm), 1 = parameters not ordered /
-   not ending at 1, 2 = witness: a curve point (range index, parameter num / den) farther than the
-   tolerance from every segment, 3 = vertex i farther than the tolerance from the curve point of its
-   own parameter *)
+   Each flattening is decided twice: against the tolerance itself ([tol2]) and, when a witness is found there,
+   against the budget of the known finding K6 ([loose2], 1.5 e resp. 2 e for tolerances that are large against the
+   curve).  Report codes: 0 = undecided range (fuel exhausted; never an alarm), 1 = parameters not ordered / not
+   ending at 1, 2 = witness: a curve point (range index, parameter num / den) farther than the K6 budget from every
+   segment, 3 = vertex i farther than the tolerance from the curve point of its own parameter, 4 = witness beyond the
+   tolerance but within the K6 budget (a known finding, with the witness) *)
 Inductive dcase :=
-| QD (id : Z) (tol2 vtol2 : Q) (c : quad) (ts : list Q) (pts : list qpt)
-| CD (id : Z) (tol2 vtol2 : Q) (c : cubic) (ts : list Q) (pts : list qpt).
+| QD (id : Z) (tol2 loose2 vtol2 : Q) (c : quad) (ts : list Q) (pts : list qpt)
+| CD (id : Z) (tol2 loose2 vtol2 : Q) (c : cubic) (ts : list Q) (pts : list qpt).
 
 Definition dev_fuel : nat := 12.
 
-Definition dev_report (id : Z) (r : option (list (Z * verdict))) (vfar : list Z) : list (Z * Z * list Z) :=
-  match r with
+Definition witnesses (code : Z) (id : Z) (l : list (Z * verdict)) : list (Z * Z * list Z) :=
+  flat_map (fun x => match snd x with
+                     | VFar t => [(id, code, [fst x; Qnum t; Zpos (Qden t)])]
+                     | _ => []
+                     end) l.
+Definition unknowns (id : Z) (l : list (Z * verdict)) : list (Z * Z * list Z) :=
+  flat_map (fun x => match snd x with VUnknown => [(id, 0%Z, [fst x])] | _ => [] end) l.
+Definition has_far (l : list (Z * verdict)) : bool :=
+  existsb (fun x => match snd x with VFar _ => true | _ => false end) l.
+
+Definition dev_report (id : Z) (tight : option (list (Z * verdict))) (loose : unit -> option (list (Z * verdict)))
+                      (vfar : list Z) : list (Z * Z * list Z) :=
+  match tight with
   | None => [(id, 1%Z, [])]
-  | Some l => flat_map (fun x => match snd x with
-                                 | VFar t => [(id, 2%Z, [fst x; Qnum t; Zpos (Qden t)])]
-                                 | VUnknown => [(id, 0%Z, [fst x])]
-                                 | VOk => []
-                                 end) l
+  | Some l =>
+      (if has_far l then
+         match loose tt with
+         | Some l2 => if has_far l2 then witnesses 2%Z id l2 else witnesses 4%Z id l
+         | None => [(id, 1%Z, [])]
+         end
+       else [])
+      ++ unknowns id l
   end ++ map (fun i => (id, 3%Z, [i])) vfar.
 
 Definition dev_bad_cases (cs : list dcase) : list (Z * Z * list Z) :=
   flat_map (fun c => match c with
-    | QD id tol2 vtol2 c ts pts =>
-        dev_report id (quad_flat_check dev_fuel tol2 c ts pts) (quad_vertices_far vtol2 c ts (tl pts) 1%Z)
-    | CD id tol2 vtol2 c ts pts =>
-        dev_report id (cubic_flat_check dev_fuel tol2 c ts pts) (cubic_vertices_far vtol2 c ts (tl pts) 1%Z)
+    | QD id tol2 loose2 vtol2 c ts pts =>
+        dev_report id (quad_flat_check dev_fuel tol2 c ts pts) (fun _ => quad_flat_check dev_fuel loose2 c ts pts)
+                   (quad_vertices_far vtol2 c ts (tl pts) 1%Z)
+    | CD id tol2 loose2 vtol2 c ts pts =>
+        dev_report id (cubic_flat_check dev_fuel tol2 c ts pts) (fun _ => cubic_flat_check dev_fuel loose2 c ts pts)
+                   (cubic_vertices_far vtol2 c ts (tl pts) 1%Z)
     end) cs.
